@@ -111,6 +111,7 @@ def values_path(max_digits):
             content += ln + eol
         ident = None
         w = {"content": SBytes(content)}
+        ctx.intend(w)
         if ident:
             w["ident"] = SBytes(ident)
         ctx.witness = w
@@ -236,6 +237,7 @@ def structure_path():
         line3 = list(b"0-0:96.13.0()")
         content = line1 + eol + eol + line2 + eol + [32, 32] + eol + line3 + eol
         w = {"content": SBytes(content)}
+        ctx.intend(w)
         ctx.witness = w
         ctx.nontrivial()
         try:
@@ -272,8 +274,12 @@ def entry_points_path():
         idc = [PC.free_printable(f"gi{i}", exclude=(0x5C, 0x20, 0x21, 0x2F)) for i in range(n)]
         ident = [0x2F] + a + [z] + idc
         d = PC.free_digit("d")
-        content = list(b"1-0:1.7.0(0001.7") + [d] + list(b"7*kW)\r\n1-0:32.7.0(233.9*V)\r\n0-0:96.1.0(4699)\r\n")
+        if eng.pick(2) == 0:
+            content = list(b"1-0:1.7.0(0001.7") + [d] + list(b"7*kW)\r\n1-0:32.7.0(233.9*V)\r\n0-0:96.1.0(4699)\r\n")
+        else:           # a block whose data sets all carry several values (gas reading with its time stamp, power-failure log): decodes to no field
+            content = list(b"0-1:24.2.1(10120912000") + [d] + list(b"W)(12785.123*m3)\r\n1-0:99.97.0(1)(0-0:96.7.19)(00000002") + [d] + list(b"*s)\r\n")
         w = {"content": SBytes(content), "ident": SBytes(ident)}
+        ctx.intend(w)
         ctx.witness = w
         ctx.nontrivial()
         try:
